@@ -39,10 +39,108 @@ Proof.
   rewrite Q2R_Qabs in H. pose proof (Rabs_pos (Q2R (vx d))). unfold qabs_max. lra.
 Qed.
 
+(** ** dyadic normalisation.  Every binary64 number is m * 2^e, but [Qplus] / [Qmult] never
+       reduce, so denominators multiply at every step and [vm_compute] ends up multiplying
+       numbers of thousands of bits.  [dred] strips the common factors of two (value
+       preserved); [hiD] is [hi] with [dred] after every arithmetic step. *)
+Fixpoint strip2 (n d : positive) : positive * positive :=
+  match n, d with
+  | xO n', xO d' => strip2 n' d'
+  | _, _ => (n, d)
+  end.
+Lemma strip2_spec : forall n d, (Zpos n * Zpos (snd (strip2 n d)) = Zpos (fst (strip2 n d)) * Zpos d)%Z.
+Proof.
+  induction n as [n IH|n IH|]; intros [d|d|]; cbn [strip2 fst snd]; try reflexivity.
+  specialize (IH d). rewrite (Pos2Z.inj_xO n), (Pos2Z.inj_xO d). nia.
+Qed.
+Definition dred (q : Q) : Q :=
+  match Qnum q with
+  | Z0 => 0%Q
+  | Zpos n => let '(n', d') := strip2 n (Qden q) in (Zpos n' # d')
+  | Zneg n => let '(n', d') := strip2 n (Qden q) in (Zneg n' # d')
+  end.
+Lemma dred_eq q : (dred q == q)%Q.
+Proof.
+  destruct q as [[|n|n] d]; unfold dred; cbn [Qnum Qden].
+  - unfold Qeq; cbn; reflexivity.
+  - pose proof (strip2_spec n d) as H. destruct (strip2 n d) as [n' d']. cbn [fst snd] in H.
+    unfold Qeq; cbn [Qnum Qden]. lia.
+  - pose proof (strip2_spec n d) as H. destruct (strip2 n d) as [n' d']. cbn [fst snd] in H.
+    unfold Qeq; cbn [Qnum Qden]. rewrite <- !Pos2Z.opp_pos. lia.
+Qed.
+Lemma dred_r q : Q2R (dred q) = Q2R q.
+Proof. apply Qeq_eqR. apply dred_eq. Qed.
+
+Definition qdotD (a b : VQ) : Q :=
+  dred (dred (dred (vx a * vx b) + dred (vy a * vy b)) + dred (vz a * vz b)).
+Lemma qdotD_r a b : Q2R (qdotD a b) = dot (v2r a) (v2r b).
+Proof. unfold qdotD. rewrite !dred_r. q2r. rewrite !dred_r. q2r. rewrite !dred_r. q2r. unfold v2r. vunfold. ring. Qed.
+
+Fixpoint hiD (s : sh) (n : VQ) : Q :=
+  match s with
+  | Pt c => qdotD c n
+  | Seg v => Qabs (qdotD v n)
+  | Ell a1 a2 a3 =>
+    let b1 := qdotD a1 n in let b2 := qdotD a2 n in let b3 := qdotD a3 n in
+    qsqrt_hi (dred (dred (dred (b1 * b1) + dred (b2 * b2)) + dred (b3 * b3)))
+  | Sum a b => dred (hiD a n + hiD b n)
+  | HullPts ps =>
+    match ps with
+    | [] => 0%Q
+    | p :: ps' => fold_left (fun m q => Qmax m (qdotD q n)) ps' (qdotD p n)
+    end
+  | HullU a b => Qmax (hiD a n) (hiD b n)
+  end.
+
+Lemma fold_maxD_ge n : forall ps m,
+  (Q2R m <= Q2R (fold_left (fun m q => Qmax m (qdotD q n)) ps m))%R /\
+  forall p, In p ps -> (Q2R (qdotD p n) <= Q2R (fold_left (fun m q => Qmax m (qdotD q n)) ps m))%R.
+Proof.
+  induction ps as [|q ps IH]; intros m; simpl.
+  - split; [lra|tauto].
+  - destruct (IH (Qmax m (qdotD q n))) as (H1 & H2). split.
+    + pose proof (Qmax_l m (qdotD q n)). lra.
+    + intros p [->|Hp]; auto. pose proof (Qmax_r m (qdotD p n)). lra.
+Qed.
+
+Theorem hiD_sound : forall s n x, sem s x -> (dot x (v2r n) <= Q2R (hiD s n))%R.
+Proof.
+  induction s as [c|v|a1 a2 a3|a IHa b IHb|ps|a IHa b IHb]; intros n x Hx; simpl in Hx.
+  - subst. cbn [hiD]. rewrite qdotD_r. apply Rle_refl.
+  - destruct Hx as (t & Ht & ->). cbn [hiD]. rewrite Q2R_Qabs, qdotD_r, dot_scale_l.
+    unfold Rabs. destruct (Rcase_abs (dot (v2r v) (v2r n))); nra.
+  - destruct Hx as (t1 & t2 & t3 & Ht & ->). cbn [hiD].
+    eapply Rle_trans; [|apply qsqrt_hi_sound].
+    rewrite !dred_r. q2r. rewrite !dred_r. q2r. rewrite !dred_r. q2r. rewrite !qdotD_r.
+    rewrite !dot_add_l, !dot_scale_l.
+    set (u1 := dot (v2r a1) (v2r n)). set (u2 := dot (v2r a2) (v2r n)). set (u3 := dot (v2r a3) (v2r n)).
+    clearbody u1 u2 u3.
+    pose proof (cauchy_schwarz (V t1 t2 t3) (V u1 u2 u3)) as HC.
+    assert (Hn : (norm (V t1 t2 t3) <= 1)%R).
+    { unfold norm. cbn [sqrt ROps]. rewrite <- sqrt_1. apply sqrt_le_1; vunfold; nra. }
+    pose proof (norm_nonneg (V u1 u2 u3)) as Hu.
+    assert (HE : norm (V u1 u2 u3) = R_sqrt.sqrt (u1 * u1 + u2 * u2 + u3 * u3)) by (unfold norm; vunfold; reflexivity).
+    rewrite <- HE.
+    assert (HD : dot (V t1 t2 t3) (V u1 u2 u3) = (t1 * u1 + (t2 * u2 + t3 * u3))%R) by (vunfold; ring).
+    pose proof (norm_nonneg (V t1 t2 t3)). nra.
+  - destruct Hx as (y & z & Hy & Hz & ->). cbn [hiD]. rewrite dred_r. q2r. rewrite dot_add_l.
+    specialize (IHa n y Hy). specialize (IHb n z Hz). lra.
+  - cbn [hiD]. destruct ps as [|p ps].
+    + destruct Hx as (ws & Hl & _ & Hs & _). destruct ws; simpl in *; [lra|discriminate].
+    + rewrite dot_comm. eapply hull_linear_bound; [|exact Hx].
+      intros q Hq. apply in_map_iff in Hq as (q0 & <- & Hq0). rewrite dot_comm, <- qdotD_r.
+      destruct (fold_maxD_ge n ps (qdotD p n)) as (H1 & H2).
+      destruct Hq0 as [<-|Hq0]; auto.
+  - destruct Hx as (y & z & t & Hy & Hz & Ht & ->). cbn [hiD].
+    rewrite dot_add_l, !dot_scale_l.
+    specialize (IHa n y Hy). specialize (IHb n z Hz).
+    pose proof (Qmax_l (hiD a n) (hiD b n)). pose proof (Qmax_r (hiD a n) (hiD b n)). nra.
+Qed.
+
 (** ** C03: s is within tau of a point of S, and no point of S projects further than
        s.d + sigma (the harness passes sigma = tau, the property's absolute tolerance) *)
 Definition support_cert (S : sh) (w : wit) (s d : VQ) (tau sigma : Q) : bool :=
-  in_shape_tol S w s tau && Qle_bool (hi S d) (qdot s d + sigma).
+  in_shape_tol S w s tau && Qle_bool (hiD S d) (qdotD s d + sigma).
 
 Theorem support_cert_sound S w s d tau sigma :
   support_cert S w s d tau sigma = true ->
@@ -52,7 +150,7 @@ Proof.
   unfold support_cert. intros H. apply andb_true_iff in H as (H1 & H2).
   pose proof (in_shape_tol_sound _ _ _ _ H1) as (q & Hq & Hd).
   split; [eauto|]. intros x Hx.
-  pose proof (hi_sound S d x Hx) as Hh. apply Qle_bool_R in H2. q2r. rewrite qdot_r in H2. lra.
+  pose proof (hiD_sound S d x Hx) as Hh. apply Qle_bool_R in H2. q2r. rewrite qdotD_r in H2. lra.
 Qed.
 
 (** scale-free variant: slack tau * max_i |d_i|  (<= tau * |d|) *)
@@ -72,6 +170,29 @@ Proof.
   nra.
 Qed.
 
+(** directions of extreme magnitude (components like 1e-300) are rescaled by the harness with a
+    power of two [c]: the checker verifies [dc = c * d] exactly and works with [dc] *)
+Definition veq_bool (a b : VQ) : bool := Qeq_bool (vx a) (vx b) && Qeq_bool (vy a) (vy b) && Qeq_bool (vz a) (vz b).
+Definition support_cert_scaled (S : sh) (w : wit) (s d dc : VQ) (c tau : Q) : bool :=
+  Qlt_bool 0 c && veq_bool (qscale c d) dc && support_cert S w s dc tau (c * tau).
+
+Theorem support_cert_scaled_sound S w s d dc c tau :
+  support_cert_scaled S w s d dc c tau = true ->
+  (exists q, sem S q /\ (norm (vsub (v2r s) q) <= Q2R tau)%R) /\
+  (forall x, sem S x -> (dot x (v2r d) <= dot (v2r s) (v2r d) + Q2R tau)%R).
+Proof.
+  unfold support_cert_scaled. intros H. apply andb_true_iff in H as (H & H3). apply andb_true_iff in H as (H1 & H2).
+  apply Qlt_bool_R in H1. rewrite Q2R_0 in H1.
+  apply support_cert_sound in H3. destruct H3 as [Hm Hv]. split; auto.
+  intros x Hx. specialize (Hv x Hx). q2r.
+  assert (E : v2r dc = vscale (Q2R c) (v2r d)).
+  { rewrite <- qscale_r. unfold veq_bool in H2.
+    apply andb_true_iff in H2 as (H2 & Hz). apply andb_true_iff in H2 as (Hx' & Hy).
+    apply Qeq_bool_eq in Hx', Hy, Hz. apply Qeq_eqR in Hx', Hy, Hz.
+    unfold v2r. rewrite Hx', Hy, Hz. reflexivity. }
+  rewrite E, !dot_scale_r in Hv. nra.
+Qed.
+
 (** ** C04: the box (lo, hi) encloses S up to tau and each bound is attained up to tau *)
 Definition qe (k : nat) : VQ := match k with 0%nat => V 1 0 0 | 1%nat => V 0 1 0 | _ => V 0 0 1 end.
 Definition qnth (v : VQ) (k : nat) : Q := match k with 0%nat => vx v | 1%nat => vy v | _ => vz v end.
@@ -84,8 +205,8 @@ Lemma qnth_r v k : Q2R (qnth v k) = nthv (v2r v) k.
 Proof. destruct k as [|[|k]]; reflexivity. Qed.
 
 Definition axis_cert (S : sh) (wlo whi : wit) (lo hi_ : VQ) (tau : Q) (k : nat) : bool :=
-  Qle_bool (hi S (qe k)) (qnth hi_ k + tau) &&
-  Qle_bool (hi S (qneg (qe k))) (- qnth lo k + tau) &&
+  Qle_bool (hiD S (qe k)) (qnth hi_ k + tau) &&
+  Qle_bool (hiD S (qneg (qe k))) (- qnth lo k + tau) &&
   match point_of S whi with Some q => Qle_bool (qnth hi_ k - tau) (qnth q k) | None => false end &&
   match point_of S wlo with Some q => Qle_bool (qnth q k) (qnth lo k + tau) | None => false end.
 
@@ -104,7 +225,7 @@ Proof.
   apply andb_true_iff in H as (H1 & H2).
   apply Qle_bool_R in H1, H2. q2r. rewrite !qnth_r in *.
   split; [|split].
-  - intros x Hx. pose proof (hi_sound S (qe k) x Hx) as A. pose proof (hi_sound S (qneg (qe k)) x Hx) as B.
+  - intros x Hx. pose proof (hiD_sound S (qe k) x Hx) as A. pose proof (hiD_sound S (qneg (qe k)) x Hx) as B.
     rewrite qneg_r in B. rewrite dot_comm, dot_neg_l, dot_comm in B. rewrite dot_qe_r in A, B. lra.
   - destruct (point_of S whi) as [q|] eqn:E; [|discriminate].
     exists (v2r q). split; [eapply point_of_sound; eauto|].
